@@ -247,12 +247,57 @@ def run(index: RepoIndex, rep) -> None:
     rep.holds('C02.R1', 'scan', f'{n_calls} call sites of the package scanned for global '
               'random sources')
     mk = index.func(RNG, 'make_rng')
-    b = mk.body()
     sp = mk.node.args.args[0].arg if mk.node.args.args else ''
-    rep.check(len(b) == 1 and isinstance(b[0], ast.Return) and
-              src(b[0].value) == f'rnd.default_rng({sp})', 'C02.R1', RNG, 'make_rng',
-              mk.node.lineno, src(b[-1]), 'make_rng does not build default_rng(seed) from its '
-              'seed parameter', 'make_rng(seed)')
+    wmk = walk_function(mk.node)
+    rets = [e for e in wmk.events if e.kind == 'return']
+    numpy_alias = {n for n, imp in mk.module.imports.items()
+                   if (imp[0] == 'module' and imp[1] in ('numpy.random', 'numpy')) or
+                   imp == ('attr', 'numpy', 'random')}
+    BITGENS = {'PCG64', 'PCG64DXSM', 'MT19937', 'Philox', 'SFC64'}
+
+    def _np_name(e: ast.AST) -> str:
+        """`rnd.default_rng` / `np.random.PCG64` / a module constant bound to one -> its name"""
+        if isinstance(e, ast.Name):
+            vals = mk.module.assigns.get(e.id)
+            if vals and len(vals) == 1:
+                return _np_name(vals[0])
+            imp = mk.module.imports.get(e.id)
+            if imp and imp[0] == 'attr' and imp[1] == 'numpy.random':
+                return imp[2]
+            return ''
+        if isinstance(e, ast.Attribute):
+            root = e
+            while isinstance(root, ast.Attribute):
+                root = root.value
+            if isinstance(root, ast.Name) and root.id in numpy_alias:
+                return e.attr
+        return ''
+
+    def _seeded(v: ast.AST) -> Optional[bool]:
+        """True: a fresh generator determined by the seed parameter; False: a generator that
+        ignores it; None: outside the grammar"""
+        if not isinstance(v, ast.Call):
+            return None
+        name = _np_name(v.func)
+        args = list(v.args) + [k.value for k in v.keywords]
+        if name == 'default_rng':
+            return len(args) == 1 and src(args[0]) == sp
+        if name == 'Generator' and len(args) == 1 and isinstance(args[0], ast.Call) and \
+                _np_name(args[0].func) in BITGENS:
+            inner = list(args[0].args) + [k.value for k in args[0].keywords]
+            return len(inner) == 1 and src(inner[0]) == sp
+        return None
+    verdicts = [(_seeded(wmk.expand(e.value)) if e.value is not None else False, e)
+                for e in rets]
+    if not rets or any(v is None for v, _ in verdicts):
+        bad_e = next((e for v, e in verdicts if v is None), None)
+        raise AnalysisError('make_rng: return value `'
+                            + (src(bad_e.value)[:80] if bad_e is not None else '<none>')
+                            + '` is not a numpy generator constructor the rule knows')
+    rep.check(all(v for v, _ in verdicts), 'C02.R1', RNG, 'make_rng',
+              mk.node.lineno, '; '.join(src(e.stmt) for _, e in verdicts)[:160],
+              'make_rng does not build default_rng(seed) from its seed parameter',
+              'make_rng(seed)')
     writers = [q for q, s in eff.summ.items() if '_gv_rng' in s.global_writes
                and any('_gv_rng' in t for _, t in s.global_sites if 'global' in t or '=' in t)]
     direct = []
